@@ -67,6 +67,12 @@ def run(ctx):
     for i, sp in enumerate(slp):
         sp['opts']['slp'] = 1 + i % 3
     specs += slp
+    # rolling re-optimisation: the first steps fixed to the previous solution, new prices behind the window
+    rf = gen.gen_many(ctx.seed, n // 3, dict(CFG, p_coarse=0.0, p_periodic=0.0), 'c04rf_')
+    for i, sp in enumerate(rf):
+        sp['opts']['refix'] = 2 + i % 4
+        sp['opts']['refix_mode'] = 'prices'
+    specs += rf
     specs = ctx.specs(specs)
     res = C.run_impl('portfolio', specs)
     exprs, owners = [], []
@@ -95,6 +101,14 @@ def run(ctx):
                 ctx.violation('impl-violation', {'spec': sp, 'mode': 'slp', 'observed': q.get('error'), 'expected': 'make_slp / optimize / extract_output work'}, trigger={'mode': 'slp-crash'})
             elif q.get('solve') == 'optimal':
                 accounting_oracle(ctx, sp, o, 'slp', q['c'], q['mapping'], q['x'], q['value'], q['out'])
+        q = o.get('refix')
+        if isinstance(q, dict):
+            ctx.count('refix:' + str(q.get('solve')))
+            if q.get('solve') == 'crash':
+                ctx.violation('impl-violation', {'spec': sp, 'mode': 'fixed window', 'observed': q.get('error'), 'expected': 'set-up with a fixed window, optimisation and output work'},
+                              trigger={'mode': 'refix-crash'})
+            elif q.get('solve') == 'optimal':
+                accounting_oracle(ctx, sp, o, 'fixed window, new prices', q['c'], q['mapping'], q['x'], q['value'], q['out'])
         s = o.get('split')
         if isinstance(s, dict) and ('setup_error' in s or s.get('out_r') is None):
             ctx.count('split_error:' + str(s.get('setup_error') or s.get('out_r_error'))[:60])
